@@ -16,6 +16,54 @@ pub struct PipeCase {
     pub t: TraceCase,
     pub pipe: PipeCfg,
     pub sched: SchedCfg,
+    /// C13 only: the pipeline as wired by remote.rs; the consumer (server loop) leaves through `close`
+    #[serde(default)]
+    pub remote: Option<RemoteLeg>,
+}
+
+#[derive(Clone, Debug, Serialize, Deserialize)]
+pub struct RemoteLeg {
+    pub sort: bool,
+    pub collect: String,
+    pub wait1: usize,
+    pub pause: bool,
+    pub wait2: usize,
+}
+
+/// remote.rs wiring (parse -> lifecycle -> plugins -> [sort] -> server loop) with overridden channel
+/// bounds: `close` at an arbitrary moment must complete (every stage terminates) and a re-open works
+fn run_remote_leg(c: &PipeCase, r: &RemoteLeg, ctx: &mut Ctx) -> Result<(), Violation> {
+    use crate::remotesim::{run_session, Cmd, Session};
+    let mut trace = c.t.trace.clone();
+    if trace.is_empty() {
+        trace.push(TMsg { ecu: 0, boot: 0, rx_us: WALL_BASE_US, ts: 1, has_ts: true, kind: K_LOG, app: 0, mcnt: 0, n: 1, flags: 0 });
+    }
+    let open = Cmd::Open { variant: 0, sort: r.sort, collect: r.collect.clone() };
+    let mut cmds = vec![open.clone(), Cmd::Wait(r.wait1)];
+    if r.pause {
+        cmds.push(Cmd::Pause);
+    }
+    cmds.push(Cmd::Close);
+    cmds.push(open);
+    cmds.push(Cmd::Wait(r.wait2));
+    cmds.push(Cmd::Close);
+    let mut sc = c.sched.clone();
+    sc.max_steps = 8_000_000;
+    let session = Session { trace, cmds, sched: sc, server_max_read: 0, poll_budget: 30_000 };
+    ctx.cfg("consumer_disappears");
+    ctx.fired("consumer_disappears");
+    ctx.probe("remote_wiring_close_runs");
+    let t = run_session(&session, ctx).map_err(|v| {
+        if v.class == "deadlock" || v.class == "step-bound" {
+            Violation::new("stages-blocked-after-close", format!("remote.rs pipeline (sort={}, collect={}): close after {} polls: {}", r.sort, r.collect, r.wait1, v.detail))
+        } else {
+            v
+        }
+    })?;
+    crate::c15::check_transcript(&session, &t, ctx)?;
+    ctx.event_u64(t.events.len() as u64);
+    ctx.nontrivial = session.trace.len() > 1;
+    Ok(())
 }
 
 pub fn simple_filters(rng: &mut Rng) -> Vec<String> {
@@ -126,7 +174,7 @@ impl Check for C06 {
             poller: k.chance(1, 2),
         };
         let sched = SchedCfg::gen(&mut rng.sub("sched"));
-        PipeCase { t, pipe, sched }
+        PipeCase { t, pipe, sched, remote: None }
     }
     fn run(c: &PipeCase, ctx: &mut Ctx) -> Result<(), Violation> {
         record_world(&c.t, ctx);
@@ -214,11 +262,20 @@ impl Check for C13 {
             poller: false,
         };
         let sched = SchedCfg::gen(&mut rng.sub("sched"));
-        PipeCase { t, pipe, sched }
+        let remote = if idx % 8 == 5 {
+            let mut r = rng.sub("remote");
+            Some(RemoteLeg { sort: r.chance(1, 2), collect: (*r.pick(&["true", "true", "\"one_pass_streams\"", "false"])).to_string(), wait1: *r.pick(&[0usize, 0, 1, 3, 10, 50, 400]), pause: r.chance(1, 4), wait2: *r.pick(&[0usize, 2, 30]) })
+        } else {
+            None
+        };
+        PipeCase { t, pipe, sched, remote }
     }
     fn run(c: &PipeCase, ctx: &mut Ctx) -> Result<(), Violation> {
         record_world(&c.t, ctx);
         record_sched(c, ctx);
+        if let Some(r) = &c.remote {
+            return run_remote_leg(c, r, ctx);
+        }
         let msgs = to_dlts(&c.t.trace, 0);
         let reference = run_reference(msgs.clone(), &c.pipe, ctx)?;
         adlt_verif_seam::probes::reset();
@@ -317,7 +374,7 @@ impl Check for C13 {
         crate::lc::lc_finding_key(v)
     }
     fn rule() -> &'static str {
-        "one run = one simulated world (<= 300 messages) through a pipeline assembled like convert.rs from the public stages (lifecycle, optional plugins, optional sort, optional filter), every stage a shuttle thread sending with the blocking-send helper over sync_channels whose bounds are overridden per run (0/1/2/3-16/1024), producer and consumer stalling at random points, in 1 of 5 runs the consumer disappearing after k messages; compared with the same stages run to completion one after the other over unbounded channels; one seeded schedule per run; non-trivial = more than one message; distinct = hash of (world, scheduler seed, capacities)"
+        "one run = one simulated world (<= 300 messages) through a pipeline assembled like convert.rs from the public stages (lifecycle, optional plugins, optional sort, optional filter), every stage a shuttle thread sending with the blocking-send helper over sync_channels whose bounds are overridden per run (0/1/2/3-16/1024), producer and consumer stalling at random points, in 1 of 5 runs the consumer disappearing after k messages; compared with the same stages run to completion one after the other over unbounded channels; one run in eight uses the wiring of remote.rs instead (real create_parser_thread behind the server loop, sorted or not, collect modes) where the consumer leaves through `close` after 0-400 polls, optionally paused, followed by a second open/close: close must complete and be answered; one seeded schedule per run; non-trivial = more than one message; distinct = hash of (world, scheduler seed, capacities)"
     }
     fn assumptions() -> Vec<&'static str> {
         vec![
@@ -334,12 +391,13 @@ impl Check for C13 {
             "adlt::filter::functions::filter_as_streams",
             "adlt::utils::sync_sender_send_delay_if_full",
             "evmap",
+            "remote.rs: create_parser_thread wiring, close handling (remote leg)",
         ]
     }
     fn stub_components() -> Vec<&'static str> {
         vec!["producer and consumer threads", "thread scheduling, channels, sleep (shuttle + seam)", "world model"]
     }
     fn required_reach() -> Vec<&'static str> {
-        vec!["try_send_full", "blocking_send", "send_disconnected", "consumer_disappears", "small_channel_capacity"]
+        vec!["try_send_full", "blocking_send", "send_disconnected", "consumer_disappears", "small_channel_capacity", "remote_wiring_close_runs"]
     }
 }
